@@ -896,6 +896,78 @@ def check_write_paths(res):
                                                       ("filetype" if ft is not None else "default")})
 
 
+def check_table_pipeline(res):
+    """RenderLaTeX with the documented select_data / from_data options on values that carry no output
+    sub-context yet, then MakeFilename and Write: every history of up to 3 runs over 2 tables (each run
+    keeps or changes the data of each table; one pipeline object for all runs, or a new one per run).
+    After every run each yielded path exists with exactly its own table's current text, changed is true
+    exactly for the rewritten files, and an unchanged run rewrites nothing."""
+    names = ["alpha", "beta"]
+    with scratch_dir(prefix="lena-verif-c19t-"):
+        os.makedirs("tpl")
+        with open(os.path.join("tpl", "tbl.tex"), "w") as f:
+            f.write("T \\VAR{x}")
+
+        def build():
+            return lena.core.Sequence(
+                lena.output.RenderLaTeX("tbl.tex", template_dir="tpl", from_data=True,
+                                        select_data=lambda v: isinstance(lena.flow.get_data(v), dict)),
+                lena.output.MakeFilename("{{name}}"),
+                lena.output.Write("tout", verbose=False))
+
+        datas = list(itertools.product((1, 2), repeat=len(names)))
+        for reuse in (False, True):
+            for hist in itertools.chain.from_iterable(itertools.product(datas, repeat=n) for n in (1, 2, 3)):
+                shutil.rmtree("tout", ignore_errors=True)
+                case = {"law": "table-pipeline", "history": [list(h) for h in hist], "one_pipeline_object": reuse}
+                pipe = build()
+                on_disk = {}
+                problem = None
+                for r, data in enumerate(hist):
+                    if not reuse:
+                        pipe = build()
+                    vals = [({"x": x}, {"name": nm}) for nm, x in zip(names, data)]
+                    before = {q: os.stat(q).st_mtime_ns for q in on_disk}
+                    for q in before:
+                        os.utime(q, ns=(10 ** 9 * (1 + r), 10 ** 9 * (1 + r)))
+                    stamp = {q: os.stat(q).st_mtime_ns for q in on_disk}
+                    try:
+                        outs = list(pipe.run(iter(vals)))
+                    except Exception as e:  # noqa
+                        problem = ("raised", type(e).__name__)
+                        break
+                    want_paths = [os.path.join("tout", nm + ".tex") for nm in names]
+                    got_paths = [o[0] if isinstance(o, tuple) else o for o in outs]
+                    if got_paths != want_paths:
+                        problem = ("paths", got_paths)
+                        break
+                    if len(set(id(o[1].get("output")) for o in outs)) != len(outs):
+                        problem = ("values share one output sub-context", got_paths)
+                        break
+                    for q, x, o in zip(want_paths, data, outs):
+                        text = "T %d" % x
+                        if not os.path.isfile(q) or open(q).read() != text:
+                            problem = ("content", {q: open(q).read() if os.path.isfile(q) else None, "want": text})
+                            break
+                        rewritten = q not in stamp or os.stat(q).st_mtime_ns != stamp[q]
+                        must = on_disk.get(q) != text
+                        if rewritten != must:
+                            problem = ("rewritten" if rewritten else "not-rewritten", q)
+                            break
+                        flag = o[1].get("output", {}).get("changed")
+                        if q in on_disk and bool(flag) != must:
+                            problem = ("changed-flag", {q: flag, "content_changed": must})
+                            break
+                        on_disk[q] = text
+                    if problem:
+                        break
+                res.case(nontrivial=len(hist) >= 2, outcome=("table", reuse, repr(problem)))
+                if problem:
+                    res.violation(case, list(problem), "every table in its own file, rewritten iff its text changed",
+                                  {"law": "table-pipeline", "what": problem[0], "one_pipeline_object": reuse})
+        res.sample(case, 1)
+
+
 def check_group_flags(res):
     """group_plots: output.changed of the group is true if any member's is (and not true if none is)."""
     for k in (1, 2, 3):
@@ -965,6 +1037,7 @@ def run_shard(p, tier):
         check_group_flags(res)
     elif kind == "write-path":
         check_write_paths(res)
+        check_table_pipeline(res)
     elif kind == "naming":
         elems = naming_elements(p["reduced"])
         part, nparts = p["part"]
@@ -1021,6 +1094,10 @@ def replay(case):
         # elements are stored with their positioned strings: undo the positioning by direct use
         seqspecs = case["elements"]
         _replay_naming(res, seqspecs, case["context"])
+    elif law == "table-pipeline":
+        check_table_pipeline(res)
+        return [v for v in result_violations(res) if v["case"].get("history") == case.get("history")
+                and v["case"].get("one_pipeline_object") == case.get("one_pipeline_object")]
     elif law == "write-path":
         check_write_paths(res)
         return [v for v in result_violations(res) if v["case"] == case] or \
